@@ -64,7 +64,7 @@ def _rgb(rng):
 def _stops(rng):
     n = rng.choice([2, 2, 3])
     offs = sorted({0.0, 1.0} | {round(rng.uniform(0.2, 0.8), 2) for _ in range(n - 2)})
-    return [(o, _rgb(rng), rng.choice([1.0, 1.0, 0.5])) for o in offs]
+    return [(o, _rgb(rng), rng.choice([1.0, 1.0, 128 / 255])) for o in offs]
 
 
 def _poly(rng, vb):
@@ -222,9 +222,14 @@ def svg_text(g):
         else:
             gid[0] += 1
             ident = f"grad{gid[0]}"
-            stops = "".join(
-                f'<stop offset="{_n(o)}" stop-color="{_hex(c)}"' + (f' stop-opacity="{_n(a)}"' if a != 1 else "") + "/>" for o, c, a in f.stops
-            )
+            # a stop's alpha is written as stop-opacity, or inside the colour (#RRGGBBAA), or
+            # split over both (0.5 = 0x80/255 x 0.996...: only exact splits are used)
+            def stop_xml(o, c, a):
+                if a != 1 and (c[0] + c[1] + c[2]) % 3 == 0:
+                    return f'<stop offset="{_n(o)}" stop-color="{_hex(c)}{round(a * 255):02X}"/>'
+                return f'<stop offset="{_n(o)}" stop-color="{_hex(c)}"' + (f' stop-opacity="{_n(a)}"' if a != 1 else "") + "/>"
+
+            stops = "".join(stop_xml(o, c, a) for o, c, a in f.stops)
             common = f' gradientUnits="{f.units}"' + (f' spreadMethod="{f.spread}"' if f.spread != "pad" else "")
             if f.gt:
                 common += ' gradientTransform="matrix(' + " ".join(_n(v) for v in f.gt) + ')"'
